@@ -9,7 +9,7 @@ Ltac Zify.zify_post_hook ::= Z.div_mod_to_equations.
 (* ---------- induction over shapes ---------- *)
 Section ShapeInd.
   Variable P : shape -> Prop.
-  Hypothesis Hscalar : forall s, (match s with SVec _ | SClass _ | SBytes | SMap _ _ _ | SArr _ _ | SVecBool | STuple _ | SOpt _ => False | _ => True end) -> P s.
+  Hypothesis Hscalar : forall s, (match s with SVec _ | SClass _ | SBytes | SMap _ _ _ | SArr _ _ | SVecBool | STuple _ | SOpt _ | SMMap _ _ | SSet _ _ => False | _ => True end) -> P s.
   Hypothesis Hbytes : P SBytes.
   Hypothesis Hvec : forall e, P e -> P (SVec e).
   Hypothesis Hclass : forall ms, Forall (fun m => P (snd m)) ms -> P (SClass ms).
@@ -18,6 +18,8 @@ Section ShapeInd.
   Hypothesis Hvb : P SVecBool.
   Hypothesis Htuple : forall ss, Forall P ss -> P (STuple ss).
   Hypothesis Hopt : forall e, P e -> P (SOpt e).
+  Hypothesis Hmm : forall ks e, P e -> P (SMMap ks e).
+  Hypothesis Hset : forall multi ks, P (SSet multi ks).
   Fixpoint shape_ind' (s : shape) : P s :=
     match s with
     | SVec e => Hvec e (shape_ind' e)
@@ -31,6 +33,8 @@ Section ShapeInd.
     | SArr n e => Harr n e (shape_ind' e)
     | SVecBool => Hvb
     | SOpt e => Hopt e (shape_ind' e)
+    | SMMap ks e => Hmm ks e (shape_ind' e)
+    | SSet multi ks => Hset multi ks
     | STuple ss => Htuple ss ((fix go (ss : list shape) : Forall P ss :=
                                  match ss with
                                  | [] => Forall_nil _
@@ -551,27 +555,167 @@ Section Programs.
     cbn [mk_reqs]. rewrite spec_reqs_cons, spec_req_each, E. cbn [MpScopeSpec.spec_reqs child]. eexists. rewrite app_nil_r. reflexivity.
   Qed.
 
+  Definition triple (s : shape) : Prop := elem_ok s /\ member_ok s /\ vact_ok s.
+  Lemma third s : not_opt s -> elem_ok s /\ member_ok s -> triple s.
+  Proof. intros Hs [H1 H2]. split; [exact H1 | split; [exact H2 | exact (vact_of_member s Hs H2)]]. Qed.
+
+  (* one typed read *)
+  Lemma scalar_case s : (match s with SVec _ | SClass _ | SBytes | SMap _ _ _ | SArr _ _ | SVecBool | STuple _ | SOpt _ | SMMap _ _ | SSet _ _ => False | _ => True end) -> triple s.
+  Proof.
+    intros Hs. apply third; [destruct s; try destruct Hs; exact I|].
+    assert (Ht : exists t, target_of s = Some t /\ forall i v, load_tr s i v = scalar_tr narrow widen o s t v
+                                   /\ elem_prog s i v = [AGet t] /\ forall q ov, member_prog s i q ov = [RGet q t] /\ absent_toks s = [KFalse])
+      by (destruct s; try destruct Hs; eexists; (split; [reflexivity|]); intros i v; repeat split).
+    destruct Ht as [t [Ht Hall]]. split.
+    + intros i v vs toks r _ H Hn. destruct (Hall i v) as [Hl [Hp _]]. rewrite Hl in H. rewrite Hp.
+      cbn [mk_areqs]. rewrite spec_areqs_cons. cbn [MpScopeSpec.spec_areq MpScopeSpec.spec_areqs].
+      unfold scalar_tr in H. destruct (typed_spec narrow widen o t v); injection H as <- <-;
+        try (exfalso; exact Hn); cbn [of_tres]; eexists; reflexivity.
+    + intros i q kvs toks r _ H Hn. destruct (Hall i MNil) as [_ [_ Hm]]. destruct (Hm q (lookup (key_of_q q) kvs)) as [Hp Ha].
+      rewrite Hp. cbn [mk_reqs]. rewrite spec_reqs_cons. cbn [MpScopeSpec.spec_req MpScopeSpec.spec_reqs].
+      unfold member_tr in H. destruct (lookup (key_of_q q) kvs) as [v|].
+      * destruct (Hall i v) as [Hl _]. rewrite Hl in H. unfold scalar_tr in H.
+        destruct (typed_spec narrow widen o t v); injection H as <- <-; try (exfalso; exact Hn); cbn [of_tres]; eexists; reflexivity.
+      * rewrite Ha in H. injection H as <- _. eexists. reflexivity.
+  Qed.
+
+  (* class *)
+  Lemma class_case ms : Forall (fun m => triple (snd m)) ms -> triple (SClass ms).
+  Proof.
+    intros Hms. apply third; [exact I|].
+    assert (Hm : Forall (fun m => member_ok (snd m)) ms) by (eapply Forall_impl; [|exact Hms]; intros m [_ [Hmm _]]; exact Hmm).
+    assert (Hbody : forall i v toks r, dok (SClass ms) v -> load_tr (SClass ms) i v = (toks, r) -> no_err r ->
+              exists c, (match v with
+                         | MMap kvs' => child (spec_reqs kvs' (match v with MMap kvs => mk_reqs (members_prog member_prog kvs (obj_fields i) ms) | _ => RNil end)) true
+                         | _ => not_container o v
+                         end) = (toks, None, c)).
+    { intros i v toks r HD H Hn. cbn [MpLoadModel.load_tr] in H.
+      destruct v; try (destruct (no_container_spec _ _ _ H Hn) as [E _]; rewrite E; eexists; reflexivity).
+      destruct (members_tr load_tr l (obj_fields i) ms) as [[t fields] err] eqn:Et. destruct err as [err|].
+      { injection H as _ <-. destruct Hn. }
+      injection H as <- _. destruct (members_loop l ms Hm (dok_class ms l HD) (obj_fields i) t fields Et) as [c E]. rewrite E. eexists. reflexivity. }
+    split.
+    + intros i v vs toks r HD H Hn. rewrite ?elem_prog_class, ?elem_prog_map. cbn [mk_areqs]. rewrite spec_areqs_cons, spec_areq_obj.
+      destruct (Hbody i v toks r HD H Hn) as [c E]. cbn [mk_reqs] in E |- *. destruct v; rewrite E; cbn [MpScopeSpec.spec_areqs]; eexists; rewrite app_nil_r; reflexivity.
+    + intros i q kvs toks r HD H Hn. unfold member_tr in H. rewrite ?member_prog_class, ?member_prog_map. cbn [mk_reqs]. rewrite spec_reqs_cons, spec_req_obj.
+      destruct (lookup (key_of_q q) kvs) as [v|].
+      * destruct (Hbody i v toks r (HD v eq_refl) H Hn) as [c E]. cbn [mk_reqs] in E |- *. destruct v; rewrite E; cbn [MpScopeSpec.spec_reqs]; eexists; rewrite app_nil_r; reflexivity.
+      * injection H as <- _. cbn [MpScopeSpec.spec_reqs absent_toks]. eexists. reflexivity.
+  Qed.
+
+  (* ---------- std::multimap, std::set ---------- *)
+  Lemma elems_ext e ld1 ld2 after : (forall i x, ld1 i x = ld2 i x) ->
+    forall vs inits, elems_tr e ld1 after inits vs = elems_tr e ld2 after inits vs.
+  Proof.
+    intros H. induction vs as [|v vs IH]; intros inits; [reflexivity|]. cbn [elems_tr]. rewrite H, (IH (tl inits)). reflexivity.
+  Qed.
+
+  Lemma vec_body_ext (p1 p2 : tv -> mpv -> list areq) d : (forall x, p1 d x = p2 d x) -> forall vs, vec_body p1 d [] vs = vec_body p2 d [] vs.
+  Proof. intros H. induction vs as [|v vs IH]; [reflexivity|]. cbn [vec_body hd tl]. rewrite H, IH. reflexivity. Qed.
+
+  Lemma members_ext_load (ld1 ld2 : shape -> tv -> mpv -> list tok * lres) kvs : forall ms inits,
+    (forall name s', In (name, s') ms -> forall i y, ld1 s' i y = ld2 s' i y) ->
+    members_tr ld1 kvs inits ms = members_tr ld2 kvs inits ms.
+  Proof.
+    induction ms as [|[name s'] ms IH]; intros inits H; [reflexivity|]. cbn [members_tr].
+    rewrite (IH (tl inits)) by (intros n s0 Hin; apply (H n s0); right; exact Hin).
+    destruct (lookup (KStr name) kvs) as [x|]; [rewrite (H name s' (or_introl eq_refl))|]; reflexivity.
+  Qed.
+
+  Definition pair_sh (ks : kshape) (e : shape) : shape := SClass (pair_ms ks e).
+  Definition load2 (e : shape) (s' : shape) (i : tv) (y : mpv) : list tok * lres :=
+    match target_of s' with Some t => scalar_tr narrow widen o s' t y | None => load_tr e i y end.
+
+  Lemma load2_eq ks e name s' : In (name, s') (pair_ms ks e) -> forall i y, load2 e s' i y = load_tr s' i y.
+  Proof.
+    intros [H | [H | []]] i y; injection H as _ <-; unfold load2.
+    - destruct ks; reflexivity.
+    - destruct e; reflexivity.
+  Qed.
+
+  (* the element of a multimap is loaded as the class { key; value } *)
+  Definition pair_loader (ks : kshape) (e : shape) (i0 : tv) (x : mpv) : list tok * lres :=
+    match x with
+    | MMap kvs =>
+      match members_tr (load2 e) kvs (obj_fields i0) (pair_ms ks e) with
+      | (t, fields, None) => (KOpen :: t ++ [KClose], LOk (TObj fields))
+      | (t, _, Some err) => (KOpen :: t, LErr err)
+      end
+    | _ => no_container o x
+    end.
+
+  Lemma pair_load_eq ks e i0 x : pair_loader ks e i0 x = load_tr (pair_sh ks e) i0 x.
+  Proof.
+    unfold pair_loader, pair_sh. cbn [MpLoadModel.load_tr]. destruct x; try reflexivity.
+    rewrite (members_ext_load (load2 e) load_tr l (pair_ms ks e) (obj_fields i0) (load2_eq ks e)). reflexivity.
+  Qed.
+
+  Definition pair_prog (ks : kshape) (e : shape) (_ : tv) (x : mpv) : list areq :=
+    [AObj (match x with
+           | MMap kvs => mk_reqs (RGet (QStr key_name) (kshape_target ks) :: member_prog e (default_of e) (QStr value_name) (lookup (KStr value_name) kvs))
+           | _ => RNil
+           end)].
+
+  Lemma pair_prog_eq ks e x : pair_prog ks e (default_of (pair_sh ks e)) x = elem_prog (pair_sh ks e) (default_of (pair_sh ks e)) x.
+  Proof.
+    unfold pair_prog, pair_sh. rewrite elem_prog_class. destruct x; try reflexivity.
+    cbn [pair_ms default_of obj_fields members_prog tl]. rewrite app_nil_r.
+    replace (member_prog (kshape_shape ks) (default_of (kshape_shape ks)) (QStr key_name) (lookup (KStr key_name) l)) with [RGet (QStr key_name) (kshape_target ks)]
+      by (destruct ks; reflexivity).
+    reflexivity.
+  Qed.
+
+  Definition mm_after (_ : tv) (r : lres) : tv := match r with LOk p => p | _ => TNil end.
+  Definition mm_mk (items : list tv) : tv := TArr (mm_of (filter is_pair items)).
+
+  Lemma mm_as_arr ks e i v : load_tr (SMMap ks e) i v = arr_tr (pair_sh ks e) (load_tr (pair_sh ks e)) mm_after mm_mk [] v.
+  Proof.
+    cbn [MpLoadModel.load_tr]. unfold arr_tr. destruct v; try reflexivity.
+    change (elems_tr (SClass (pair_ms ks e)) _ _ [] l) with (elems_tr (pair_sh ks e) (pair_loader ks e) mm_after [] l).
+    rewrite (elems_ext (pair_sh ks e) (pair_loader ks e) (load_tr (pair_sh ks e)) mm_after (pair_load_eq ks e) l []). reflexivity.
+  Qed.
+
+  Lemma elem_prog_mm ks e i v : elem_prog (SMMap ks e) i v = [AArr (arr_prog (pair_prog ks e) (default_of (pair_sh ks e)) [] v)].
+  Proof. reflexivity. Qed.
+  Lemma member_prog_mm ks e i q ov : member_prog (SMMap ks e) i q ov =
+    [RArr q (match ov with Some v => arr_prog (pair_prog ks e) (default_of (pair_sh ks e)) [] v | None => ANil end)].
+  Proof. reflexivity. Qed.
+
+  Lemma mm_prog_eq ks e v : arr_prog (pair_prog ks e) (default_of (pair_sh ks e)) [] v = arr_prog (elem_prog (pair_sh ks e)) (default_of (pair_sh ks e)) [] v.
+  Proof. unfold arr_prog. destruct v; try reflexivity. rewrite (vec_body_ext _ _ _ (pair_prog_eq ks e) l). reflexivity. Qed.
+
+  Lemma dok_mm ks e l : dok (SMMap ks e) (MArr l) -> Forall (dok (pair_sh ks e)) l.
+  Proof.
+    intros [H | H]; [discriminate H|]. apply Forall_forall. intros x Hin. right.
+    pose proof (doc_ok_arr _ H) as HF. rewrite Forall_forall in HF. exact (HF x Hin).
+  Qed.
+
+  Lemma elem_prog_set multi ks i v : elem_prog (SSet multi ks) i v = [AArr (arr_prog (key_prog ks) (default_of (kshape_shape ks)) [] v)].
+  Proof. reflexivity. Qed.
+  Lemma member_prog_set multi ks i q ov : member_prog (SSet multi ks) i q ov =
+    [RArr q (match ov with Some v => arr_prog (key_prog ks) (default_of (kshape_shape ks)) [] v | None => ANil end)].
+  Proof. reflexivity. Qed.
+
+  Lemma key_elem ks i v vs toks r : any v -> scalar_ld narrow widen o (kshape_shape ks) (kshape_target ks) i v = (toks, r) -> no_err r ->
+    exists c, spec_areqs (v :: vs) (mk_areqs (key_prog ks i v)) = ((toks, None, c), vs).
+  Proof.
+    intros _ H Hn. unfold key_prog. cbn [mk_areqs]. rewrite spec_areqs_cons. cbn [MpScopeSpec.spec_areq MpScopeSpec.spec_areqs].
+    unfold scalar_ld, scalar_tr in H. destruct (typed_spec narrow widen o (kshape_target ks) v); injection H as <- <-;
+      try (exfalso; exact Hn); cbn [of_tres]; eexists; reflexivity.
+  Qed.
+
+  Lemma set_as_arr multi ks i v : load_tr (SSet multi ks) i v =
+    arr_tr (kshape_shape ks) (scalar_ld narrow widen o (kshape_shape ks) (kshape_target ks)) (fun _ r => fill (kshape_shape ks) r)
+           (fun items => TArr (set_of multi items)) [] v.
+  Proof. reflexivity. Qed.
+
   Theorem progs_ok : forall s, elem_ok s /\ member_ok s /\ vact_ok s.
   Proof.
     assert (Hthird : forall s, not_opt s -> elem_ok s /\ member_ok s -> elem_ok s /\ member_ok s /\ vact_ok s)
       by (intros s Hs [H1 H2]; split; [exact H1 | split; [exact H2 | exact (vact_of_member s Hs H2)]]).
     apply shape_ind'.
     - (* one typed read *)
-      intros s Hs. apply Hthird; [destruct s; try destruct Hs; exact I|].
-      assert (Ht : exists t, target_of s = Some t /\ forall i v, load_tr s i v = scalar_tr narrow widen o s t v
-                                     /\ elem_prog s i v = [AGet t] /\ forall q ov, member_prog s i q ov = [RGet q t] /\ absent_toks s = [KFalse])
-        by (destruct s; try destruct Hs; eexists; (split; [reflexivity|]); intros i v; repeat split).
-      destruct Ht as [t [Ht Hall]]. split.
-      + intros i v vs toks r _ H Hn. destruct (Hall i v) as [Hl [Hp _]]. rewrite Hl in H. rewrite Hp.
-        cbn [mk_areqs]. rewrite spec_areqs_cons. cbn [MpScopeSpec.spec_areq MpScopeSpec.spec_areqs].
-        unfold scalar_tr in H. destruct (typed_spec narrow widen o t v); injection H as <- <-;
-          try (exfalso; exact Hn); cbn [of_tres]; eexists; reflexivity.
-      + intros i q kvs toks r _ H Hn. destruct (Hall i MNil) as [_ [_ Hm]]. destruct (Hm q (lookup (key_of_q q) kvs)) as [Hp Ha].
-        rewrite Hp. cbn [mk_reqs]. rewrite spec_reqs_cons. cbn [MpScopeSpec.spec_req MpScopeSpec.spec_reqs].
-        unfold member_tr in H. destruct (lookup (key_of_q q) kvs) as [v|].
-        * destruct (Hall i v) as [Hl _]. rewrite Hl in H. unfold scalar_tr in H.
-          destruct (typed_spec narrow widen o t v); injection H as <- <-; try (exfalso; exact Hn); cbn [of_tres]; eexists; reflexivity.
-        * rewrite Ha in H. injection H as <- _. eexists. reflexivity.
+      intros s Hs. exact (scalar_case s Hs).
     - (* byte container *)
       apply Hthird; [exact I|]. split.
       + intros i v vs toks r _ H Hn. cbn [MpLoadModel.load_tr] in H.
@@ -611,25 +755,7 @@ Section Programs.
         { destruct (lookup (key_of_q q) kvs); exact H. }
         cbn [mk_reqs]. rewrite spec_reqs_cons, E. cbn [MpScopeSpec.spec_reqs]. eexists. rewrite app_nil_r. reflexivity.
     - (* class *)
-      intros ms Hms. apply Hthird; [exact I|].
-      assert (Hm : Forall (fun m => member_ok (snd m)) ms) by (eapply Forall_impl; [|exact Hms]; intros m [_ [Hmm _]]; exact Hmm).
-      assert (Hbody : forall i v toks r, dok (SClass ms) v -> load_tr (SClass ms) i v = (toks, r) -> no_err r ->
-                exists c, (match v with
-                           | MMap kvs' => child (spec_reqs kvs' (match v with MMap kvs => mk_reqs (members_prog member_prog kvs (obj_fields i) ms) | _ => RNil end)) true
-                           | _ => not_container o v
-                           end) = (toks, None, c)).
-      { intros i v toks r HD H Hn. cbn [MpLoadModel.load_tr] in H.
-        destruct v; try (destruct (no_container_spec _ _ _ H Hn) as [E _]; rewrite E; eexists; reflexivity).
-        destruct (members_tr load_tr l (obj_fields i) ms) as [[t fields] err] eqn:Et. destruct err as [err|].
-        { injection H as _ <-. destruct Hn. }
-        injection H as <- _. destruct (members_loop l ms Hm (dok_class ms l HD) (obj_fields i) t fields Et) as [c E]. rewrite E. eexists. reflexivity. }
-      split.
-      + intros i v vs toks r HD H Hn. rewrite ?elem_prog_class, ?elem_prog_map. cbn [mk_areqs]. rewrite spec_areqs_cons, spec_areq_obj.
-        destruct (Hbody i v toks r HD H Hn) as [c E]. cbn [mk_reqs] in E |- *. destruct v; rewrite E; cbn [MpScopeSpec.spec_areqs]; eexists; rewrite app_nil_r; reflexivity.
-      + intros i q kvs toks r HD H Hn. unfold member_tr in H. rewrite ?member_prog_class, ?member_prog_map. cbn [mk_reqs]. rewrite spec_reqs_cons, spec_req_obj.
-        destruct (lookup (key_of_q q) kvs) as [v|].
-        * destruct (Hbody i v toks r (HD v eq_refl) H Hn) as [c E]. cbn [mk_reqs] in E |- *. destruct v; rewrite E; cbn [MpScopeSpec.spec_reqs]; eexists; rewrite app_nil_r; reflexivity.
-        * injection H as <- _. cbn [MpScopeSpec.spec_reqs absent_toks]. eexists. reflexivity.
+      intros ms Hms. exact (class_case ms Hms).
     - (* std::map *)
       intros m ks e [_ [_ IHv]]. apply Hthird; [exact I|]. pose proof (map_body m ks e IHv) as Hbody. split.
       + intros i v vs toks r HD H Hn. rewrite ?elem_prog_class, ?elem_prog_map. cbn [mk_areqs]. rewrite spec_areqs_cons, spec_areq_obj.
@@ -688,6 +814,39 @@ Section Programs.
         destruct H' as [r0 [H' Hn0]]. exact (IHm (opt_init e i) q kvs toks r0 HD H' Hn0).
       + intros i q kvs x toks r Hl HD H Hn. cbn [MpLoadModel.load_tr] in H. destruct (load_tr e (opt_init e i) x) as [t r0] eqn:El.
         injection H as <- <-. exact (IHv (opt_init e i) q kvs x t r0 Hl HD El (Hn' r0 Hn)).
+    - (* std::multimap: an array of pairs, each loaded as the class { key; value } *)
+      intros ks e IHe.
+      assert (Hp : triple (pair_sh ks e)).
+      { apply class_case. constructor; [apply scalar_case; destruct ks; exact I|]. constructor; [exact IHe | constructor]. }
+      destruct Hp as [Hpe _]. apply Hthird; [exact I|]. split.
+      + intros i v vs toks r HD H Hn. rewrite elem_prog_mm, mm_prog_eq. rewrite mm_as_arr in H.
+        destruct (vec_elem (pair_sh ks e) _ (elem_prog (pair_sh ks e)) _ _ (dok (pair_sh ks e)) [] v vs toks r Hpe
+                    (fun l El => dok_mm ks e l (eq_ind _ (dok (SMMap ks e)) HD _ El)) H Hn) as [c E].
+        rewrite (one_areq _ _ _ _ E). eexists. rewrite app_nil_r. reflexivity.
+      + intros i q kvs toks r HD H Hn. unfold member_tr in H. rewrite member_prog_mm.
+        assert (H' : (match lookup (key_of_q q) kvs with
+                      | Some x => arr_tr (pair_sh ks e) (load_tr (pair_sh ks e)) mm_after mm_mk [] x
+                      | None => ([KNone], LNot) end) = (toks, r)).
+        { destruct (lookup (key_of_q q) kvs) as [x|]; [rewrite <- mm_as_arr with (i := i); exact H | exact H]. }
+        destruct (vec_member (pair_sh ks e) _ (elem_prog (pair_sh ks e)) mm_after mm_mk (dok (pair_sh ks e)) [] q kvs toks r Hpe
+                    (fun l El => dok_mm ks e l (HD _ El)) H' Hn) as [c E].
+        assert (Eq : (match lookup (key_of_q q) kvs with Some v => arr_prog (pair_prog ks e) (default_of (pair_sh ks e)) [] v | None => ANil end) =
+                     (match lookup (key_of_q q) kvs with Some v => arr_prog (elem_prog (pair_sh ks e)) (default_of (pair_sh ks e)) [] v | None => ANil end))
+          by (destruct (lookup (key_of_q q) kvs); [apply mm_prog_eq | reflexivity]).
+        rewrite Eq. cbn [mk_reqs]. rewrite spec_reqs_cons, E. cbn [MpScopeSpec.spec_reqs]. eexists. rewrite app_nil_r. reflexivity.
+    - (* std::set / std::multiset *)
+      intros multi ks. apply Hthird; [exact I|]. split.
+      + intros i v vs toks r _ H Hn. rewrite elem_prog_set. rewrite set_as_arr in H.
+        destruct (vec_elem (kshape_shape ks) _ (key_prog ks) _ _ any [] v vs toks r (key_elem ks) (fun l _ => any_all l) H Hn) as [c E].
+        rewrite (one_areq _ _ _ _ E). eexists. rewrite app_nil_r. reflexivity.
+      + intros i q kvs toks r _ H Hn. unfold member_tr in H. rewrite member_prog_set.
+        assert (H' : (match lookup (key_of_q q) kvs with
+                      | Some x => arr_tr (kshape_shape ks) (scalar_ld narrow widen o (kshape_shape ks) (kshape_target ks)) (fun _ r => fill (kshape_shape ks) r)
+                                         (fun items => TArr (set_of multi items)) [] x
+                      | None => ([KNone], LNot) end) = (toks, r)).
+        { destruct (lookup (key_of_q q) kvs) as [x|]; exact H. }
+        destruct (vec_member (kshape_shape ks) _ (key_prog ks) _ _ any [] q kvs toks r (key_elem ks) (fun l _ => any_all l) H' Hn) as [c E].
+        cbn [mk_reqs]. rewrite spec_reqs_cons, E. cbn [MpScopeSpec.spec_reqs]. eexists. rewrite app_nil_r. reflexivity.
   Qed.
 End Programs.
 
@@ -820,6 +979,83 @@ Proof. induction ms as [|[name s'] ms IH]; [reflexivity|]. cbn [forallb snd]. re
 Lemma clean_maps_tuple ss : clean_maps (STuple ss) = forallb clean_maps ss.
 Proof. induction ss as [|s' ss IH]; [reflexivity|]. cbn [forallb]. rewrite <- IH. reflexivity. Qed.
 
+(* ---------- std::multimap / std::set values ---------- *)
+Fixpoint mm_shape (ks : kshape) (e : shape) (l : list tv) : bool :=
+  match l with
+  | [] => true
+  | TObj [(TStr kn, k); (TStr vn, x)] :: t =>
+    bytes_eqb kn key_name && bytes_eqb vn value_name && key_has k ks && has_shape x e && mm_shape ks e t
+  | _ => false
+  end.
+Lemma has_shape_mm l ks e : has_shape (TArr l) (SMMap ks e) = mm_shape ks e l && mm_sorted l.
+Proof.
+  cbn [has_shape]. f_equal. induction l as [|p t IH]; [reflexivity|]. cbn [mm_shape]. rewrite <- IH. reflexivity.
+Qed.
+Lemma has_shape_set l multi ks : has_shape (TArr l) (SSet multi ks) = forallb (fun k => key_has k ks) l && (if multi then mset_sorted l else set_sorted l).
+Proof. reflexivity. Qed.
+
+Lemma key_has_shape k ks : key_has k ks = true -> has_shape k (kshape_shape ks) = true.
+Proof. destruct k, ks; intros H; try discriminate H; try reflexivity. exact H. Qed.
+
+Lemma mm_shape_all ks e : forall l, mm_shape ks e l = true -> all_shape (SClass (pair_ms ks e)) l = true /\ filter is_pair l = l.
+Proof.
+  induction l as [|p t IH]; intros H; [split; reflexivity|]. cbn [mm_shape] in H.
+  destruct p as [ | b0 | k0 z0 | b0 | b0 | s0 | s0 | l0 | kvs]; try discriminate H. destruct kvs as [|[k1 k] kvs]; try discriminate H. destruct k1; try discriminate H.
+  destruct kvs as [|[k2 x] kvs]; try discriminate H. destruct k2; try discriminate H. destruct kvs; try discriminate H.
+  apply andb_true_iff in H. destruct H as [H Ht]. apply andb_true_iff in H. destruct H as [H Hx]. apply andb_true_iff in H. destruct H as [H Hk].
+  apply andb_true_iff in H. destruct H as [Hn1 Hn2]. destruct (IH Ht) as [IH1 IH2].
+  split.
+  - cbn [all_shape]. rewrite IH1, andb_true_r. rewrite has_shape_obj. cbn [class_shape pair_ms].
+    rewrite Hn1, Hn2, Hx, (key_has_shape k ks Hk). reflexivity.
+  - cbn [filter is_pair]. rewrite IH2. reflexivity.
+Qed.
+
+Lemma mset_before : forall l1 k l2, mset_sorted (l1 ++ k :: l2) = true -> forall q, In q l1 -> tkey_ltb k q = false.
+Proof.
+  induction l1 as [|a l1 IH]; intros k l2 H q Hin; [destruct Hin|]. cbn [app mset_sorted] in H. apply andb_true_iff in H. destruct H as [Ha Ht].
+  destruct Hin as [<- | Hin]; [|exact (IH k l2 Ht q Hin)].
+  rewrite forallb_forall in Ha. assert (Hk : In k (l1 ++ k :: l2)) by (apply in_or_app; right; left; reflexivity). specialize (Ha k Hk). apply negb_true_iff in Ha. exact Ha.
+Qed.
+
+Lemma set_before : forall l1 k l2, set_sorted (l1 ++ k :: l2) = true -> forall q, In q l1 -> tkey_ltb q k = true.
+Proof.
+  induction l1 as [|a l1 IH]; intros k l2 H q Hin; [destruct Hin|]. cbn [app set_sorted] in H. apply andb_true_iff in H. destruct H as [Ha Ht].
+  destruct Hin as [<- | Hin]; [|exact (IH k l2 Ht q Hin)].
+  rewrite forallb_forall in Ha. apply Ha. apply in_or_app. right. left. reflexivity.
+Qed.
+
+Lemma mm_insert_last p : forall acc, (forall q, In q acc -> tkey_ltb (pair_key p) (pair_key q) = false) -> mm_insert p acc = acc ++ [p].
+Proof.
+  induction acc as [|q acc IH]; intros H; [reflexivity|]. cbn [mm_insert app]. rewrite (H q (or_introl eq_refl)).
+  rewrite IH by (intros q' Hin; apply H; right; exact Hin). reflexivity.
+Qed.
+
+Lemma mm_of_sorted : forall items acc, mm_sorted (acc ++ items) = true -> fold_left (fun a p => mm_insert p a) items acc = acc ++ items.
+Proof.
+  induction items as [|p items IH]; intros acc H; [cbn [fold_left]; rewrite app_nil_r; reflexivity|]. cbn [fold_left].
+  rewrite mm_insert_last.
+  - rewrite IH by (rewrite <- app_assoc; exact H). rewrite <- app_assoc. reflexivity.
+  - intros q Hin. unfold mm_sorted in H. rewrite map_app in H. cbn [map] in H.
+    exact (mset_before _ _ _ H (pair_key q) (in_map pair_key _ _ Hin)).
+Qed.
+
+Lemma set_insert_last multi k : forall acc, (forall q, In q acc -> tkey_ltb k q = false /\ (multi || tkey_ltb q k) = true) -> set_insert multi k acc = acc ++ [k].
+Proof.
+  induction acc as [|q acc IH]; intros H; [reflexivity|]. cbn [set_insert app]. destruct (H q (or_introl eq_refl)) as [H1 H2]. rewrite H1, H2.
+  rewrite IH by (intros q' Hin; apply H; right; exact Hin). reflexivity.
+Qed.
+
+Lemma set_of_sorted (multi : bool) : forall items acc, (if multi then mset_sorted (acc ++ items) else set_sorted (acc ++ items)) = true ->
+  fold_left (fun a k => set_insert multi k a) items acc = acc ++ items.
+Proof.
+  induction items as [|k items IH]; intros acc H; [cbn [fold_left]; rewrite app_nil_r; reflexivity|]. cbn [fold_left].
+  rewrite set_insert_last.
+  - rewrite IH by (rewrite <- app_assoc; exact H). rewrite <- app_assoc. reflexivity.
+  - intros q Hin. destruct multi.
+    + split; [exact (mset_before _ _ _ H q Hin) | reflexivity].
+    + pose proof (set_before _ _ _ H q Hin) as Hlt. split; [exact (tkey_ltb_asym _ _ Hlt) | exact Hlt].
+Qed.
+
 Definition absp (kv : tv * tv) : mpv * mpv := (abs (fst kv), abs (snd kv)).
 
 Lemma abs_obj l : abs (TObj l) = MMap (map absp l).
@@ -864,6 +1100,8 @@ Section RoundTrip.
     - intros ss _ i. eexists _, _. split; [reflexivity|]. auto.
     - intros e IH i. cbn [MpLoadModel.load_tr]. destruct (IH (opt_init e i)) as [t [r [E Hr]]]. rewrite E.
       eexists _, _. split; [reflexivity|]. destruct Hr as [-> | [-> | ->]]; cbn [opt_res]; auto.
+    - intros ks e _ i. eexists _, _. split; [reflexivity|]. auto.
+    - intros multi ks i. eexists _, _. split; [reflexivity|]. auto.
   Qed.
 
   (* from the shapes that are not wrappers to all shapes *)
@@ -996,6 +1234,25 @@ Section RoundTrip.
         destruct (rt_bools l false Hs) as [t Et]. rewrite Et. eexists. reflexivity.
       + rewrite has_shape_tuple in Hs. rewrite wf_arr in Hw. rewrite clean_maps_tuple in Hc. apply doc_ok_arr in Hd. cbn [abs MpLoadModel.load_tr].
         destruct (rt_comps l ss (arr_items i) HF Hs Hc Hw Hd) as [t Et]. rewrite Et. eexists. reflexivity.
+      + (* std::multimap *)
+        rewrite has_shape_mm in Hs. apply andb_true_iff in Hs. destruct Hs as [Hs Hsorted]. destruct (mm_shape_all ks e l Hs) as [Hall Hfil].
+        rewrite wf_arr in Hw. cbn [clean_maps] in Hc. apply doc_ok_arr in Hd.
+        assert (Hc' : clean_maps (pair_sh ks e) = true) by (unfold pair_sh; rewrite clean_maps_class; cbn [pair_ms forallb snd]; rewrite Hc; destruct ks; reflexivity).
+        assert (Ha : forall i0 x r, rt_out (pair_sh ks e) x r -> mm_after i0 r = x) by (intros i0 x r [-> | [_ [_ F]]]; [reflexivity | destruct F]).
+        rewrite (mm_as_arr narrow widen o ks e i). cbn [abs]. unfold arr_tr.
+        destruct (rt_elems (pair_sh ks e) mm_after Ha Hc' l [] HF Hall Hw Hd) as [t Et]. rewrite Et.
+        unfold mm_mk. rewrite Hfil. unfold mm_of. rewrite (mm_of_sorted l [] Hsorted). eexists. reflexivity.
+      + (* std::set / std::multiset *)
+        rewrite has_shape_set in Hs. apply andb_true_iff in Hs. destruct Hs as [Hs Hsorted]. rewrite wf_arr in Hw. apply doc_ok_arr in Hd.
+        assert (Hall : all_shape (kshape_shape ks) l = true).
+        { clear -Hs. induction l as [|k l IH]; [reflexivity|]. cbn [forallb] in Hs. apply andb_true_iff in Hs. destruct Hs as [Hk Hl].
+          cbn [all_shape]. rewrite (key_has_shape k ks Hk), (IH Hl). reflexivity. }
+        assert (Hc' : clean_maps (kshape_shape ks) = true) by (destruct ks; reflexivity).
+        rewrite (set_as_arr narrow widen o multi ks i). cbn [abs]. unfold arr_tr.
+        rewrite (elems_ext (kshape_shape ks) (scalar_ld narrow widen o (kshape_shape ks) (kshape_target ks)) (load_tr (kshape_shape ks)) _)
+          by (intros i0 x; destruct ks; reflexivity).
+        destruct (rt_elems (kshape_shape ks) (fun _ r => fill (kshape_shape ks) r) (fun _ x r => fill_out (kshape_shape ks) x r) Hc' l [] HF Hall Hw Hd) as [t Et]. rewrite Et.
+        unfold set_of. rewrite (set_of_sorted multi l [] Hsorted). eexists. reflexivity.
     - rename H into HF. intros [] i Hno Hs Hc Hw Hd; try discriminate Hs; try destruct Hno.
       + rewrite has_shape_obj in Hs. rewrite wf_obj in Hw. rewrite clean_maps_class in Hc.
         rewrite abs_obj in *. destruct (doc_ok_map _ Hd) as [_ [Hdist Hvals]].
@@ -1364,7 +1621,7 @@ Lemma ex_tup_loads :
     LOk (TArr [TInt IS32 7; TStr [0x61]; TArr [TInt IU8 1; TInt IU8 2]]) /\
   load_bytes no_narrow id_widen (mkOpts PThrow PThrow) ex_tup_shape [0x94; 0x07; 0xA1; 0x61; 0x92; 0x01; 0x02; 0x09] = LErr (SE EMismatch) /\
   load_bytes no_narrow id_widen skip_all ex_tup_shape [0x93; 0x07; 0xA1; 0x61; 0x91; 0x01] = LErr SERange.
-Proof. repeat split; vm_compute; reflexivity. Qed.
+Proof. split; [vm_compute; reflexivity|]. split; [vm_compute; reflexivity|]. split; [vm_compute; reflexivity|]. split; [vm_compute; reflexivity|]. vm_compute. reflexivity. Qed.
 
 (* ---------- the tokens determine the loaded value ---------- *)
 Section ReadOff.
@@ -1574,6 +1831,8 @@ Section ReadOff.
         injection H as <- <-. cbn [read_off].
         rewrite (IHe (opt_init e i) v t r0 rest El) by (destruct r0; exact I || exact Hn). reflexivity.
       + intros i rest. cbn [read_off absent_toks]. rewrite (IHa (opt_init e i) rest). destruct e; reflexivity.
+    - intros ks e _ Hf. discriminate Hf.
+    - intros multi ks Hf. discriminate Hf.
   Qed.
 
   (* what the program's answers say is what load_spec says, whatever the target holds *)
@@ -1615,6 +1874,8 @@ Section Populated.
     - intros _ i i' v. reflexivity.
     - intros ss _ Hf. discriminate Hf.
     - intros e IH Hf i i' v. cbn [overwritten] in Hf. cbn [MpLoadModel.load_tr]. rewrite (IH Hf (opt_init e i) (opt_init e i') v). reflexivity.
+    - intros ks e _ _ i i' v. reflexivity.
+    - intros multi ks _ i i' v. reflexivity.
   Qed.
 
   (* MapLoadMode::Clean: whatever the map holds and whatever its mapped values are: as into an empty map *)
@@ -1719,7 +1980,7 @@ Lemma pop_map_modes :
   load_bytes_into no_narrow id_widen skip_all (pop_map MOnlyExist) pop_prior pop_doc = LOk (TObj [(TStr [0x61], TInt IS32 1); (TStr [0x63], TInt IS32 30)]) /\
   load_bytes_into no_narrow id_widen skip_all (pop_map MUpdate) pop_prior pop_doc =
     LOk (TObj [(TStr [0x61], TInt IS32 1); (TStr [0x62], TInt IS32 20); (TStr [0x63], TInt IS32 30)]).
-Proof. repeat split; vm_compute; reflexivity. Qed.
+Proof. split; [vm_compute; reflexivity|]. split; [vm_compute; reflexivity|]. vm_compute. reflexivity. Qed.
 
 (* the shape computed from a value has no std::map *)
 Lemma shape_of_clean : forall v, clean_maps (shape_of v) = true.
@@ -1730,3 +1991,52 @@ Proof.
     induction kvs as [|[k x] kvs IH]; [reflexivity|]. inversion HF as [|? ? [_ Hx] Hl]; subst. cbn [fst snd] in Hx.
     cbn [forallb snd]. rewrite Hx. exact (IH Hl).
 Qed.
+
+(* class { o : std::optional<int32_t>; p : std::unique_ptr<class { a : int32_t }>; v : std::vector<std::optional<std::string>> } *)
+Definition ex_opt_shape : shape :=
+  SClass [([0x6F], SOpt (SInt IS32)); ([0x70], SOpt (SClass [([0x61], SInt IS32)])); ([0x76], SVec (SOpt SStr))].
+Definition ex_opt_tree : tv :=
+  TObj [(TStr [0x6F], TNil); (TStr [0x70], TObj [(TStr [0x61], TInt IS32 7)]); (TStr [0x76], TArr [TStr [0x78]; TNil; TStr []])].
+Lemma ex_opt_roundtrip : has_shape ex_opt_tree ex_opt_shape = true /\
+  exists b, save ex_opt_tree = Some b /\ load_bytes no_narrow id_widen skip_all ex_opt_shape b = LOk ex_opt_tree.
+Proof. split; [vm_compute; reflexivity|]. eexists. split; [vm_compute; reflexivity|]. vm_compute. reflexivity. Qed.
+(* into a target that holds { o = 5; p = { a = 1 }; v = [] }:
+   {}                      : the absent members are RESET to empty: { o = empty; p = empty; v = [] }
+   { "o": "x", "p": nil }  : a value of another kind under Skip and nil reset as well
+   { "p": {} }             : the pointee exists, is loaded into, and keeps the member the document does not have: { a = 1 } *)
+Definition ex_opt_prior : tv := TObj [(TStr [0x6F], TInt IS32 5); (TStr [0x70], TObj [(TStr [0x61], TInt IS32 1)]); (TStr [0x76], TArr [])].
+Lemma ex_opt_loads :
+  load_bytes_into no_narrow id_widen skip_all ex_opt_shape ex_opt_prior [0x80] =
+    LOk (TObj [(TStr [0x6F], TNil); (TStr [0x70], TNil); (TStr [0x76], TArr [])]) /\
+  load_bytes_into no_narrow id_widen skip_all ex_opt_shape ex_opt_prior [0x82; 0xA1; 0x6F; 0xA1; 0x78; 0xA1; 0x70; 0xC0] =
+    LOk (TObj [(TStr [0x6F], TNil); (TStr [0x70], TNil); (TStr [0x76], TArr [])]) /\
+  load_bytes_into no_narrow id_widen skip_all ex_opt_shape ex_opt_prior [0x81; 0xA1; 0x70; 0x80] =
+    LOk (TObj [(TStr [0x6F], TNil); (TStr [0x70], TObj [(TStr [0x61], TInt IS32 1)]); (TStr [0x76], TArr [])]) /\
+  load_bytes_into no_narrow id_widen skip_all (SOpt (SInt IS32)) (TInt IS32 5) [0xC0] = LReset TNil.
+Proof. split; [vm_compute; reflexivity|]. split; [vm_compute; reflexivity|]. split; [vm_compute; reflexivity|]. vm_compute. reflexivity. Qed.
+
+(* std::multimap<int8_t, std::string> { 1:"a", 1:"b", 2:"c" } and the document [ {key:2,value:"c"}, {key:1,value:"a"}, nil, {key:1,value:"b"} ]:
+   ordered by key, equal keys in the order of the document, the element that is not an object is not inserted *)
+Definition mmp (k : Z) (s : list N) : tv := TObj [(TStr key_name, TInt IS8 k); (TStr value_name, TStr s)].
+Definition ex_mm_shape : shape := SMMap (KSInt IS8) SStr.
+Definition ex_mm_tree : tv := TArr [mmp 1 [0x61]; mmp 1 [0x62]; mmp 2 [0x63]].
+Definition ex_mm_doc : list N :=
+  [0x94; 0x82; 0xA3; 0x6B; 0x65; 0x79; 0x02; 0xA5; 0x76; 0x61; 0x6C; 0x75; 0x65; 0xA1; 0x63;
+   0x82; 0xA3; 0x6B; 0x65; 0x79; 0x01; 0xA5; 0x76; 0x61; 0x6C; 0x75; 0x65; 0xA1; 0x61; 0xC0;
+   0x82; 0xA3; 0x6B; 0x65; 0x79; 0x01; 0xA5; 0x76; 0x61; 0x6C; 0x75; 0x65; 0xA1; 0x62].
+Lemma ex_mm_loads :
+  has_shape ex_mm_tree ex_mm_shape = true /\
+  (exists b, save ex_mm_tree = Some b /\ load_bytes no_narrow id_widen skip_all ex_mm_shape b = LOk ex_mm_tree) /\
+  load_bytes no_narrow id_widen skip_all ex_mm_shape ex_mm_doc = LOk ex_mm_tree.
+Proof.
+  split; [vm_compute; reflexivity|]. split; [|vm_compute; reflexivity].
+  eexists. split; [vm_compute; reflexivity|]. vm_compute. reflexivity.
+Qed.
+
+(* [ "b", "a", "b", 5 ] under Skip: the element that does not load inserts the value-initialised string; a set drops the
+   second "b", a multiset keeps it *)
+Definition ex_set_doc : list N := [0x94; 0xA1; 0x62; 0xA1; 0x61; 0xA1; 0x62; 0x05].
+Lemma ex_set_loads :
+  load_bytes no_narrow id_widen skip_all (SSet false KSStr) ex_set_doc = LOk (TArr [TStr []; TStr [0x61]; TStr [0x62]]) /\
+  load_bytes no_narrow id_widen skip_all (SSet true KSStr) ex_set_doc = LOk (TArr [TStr []; TStr [0x61]; TStr [0x62]; TStr [0x62]]).
+Proof. split; [vm_compute; reflexivity|]. vm_compute. reflexivity. Qed.
